@@ -14,6 +14,7 @@ def run(tier, seed):
     # random lists of 4..12 rules over the whole space of valid cosmetic rules (TLC Randomization, seeded)
     _, rep_r = coscommon.mc_and_replay(v, wd, "rand", 300 if tier == "quick" else 3000, workers=12, extra=["-seed", str(seed)])
     vlib.require(rep_r["evaluations"] > 20000, "random cosmetic universe too small")
+    vlib.scale_stage(v, wd, "C17")
     return v.finish("model_checking", "lists of <= %d cosmetic rules" % k, exhaustive=True)
 
 
